@@ -1038,6 +1038,7 @@ pub fn run_c03(run: &mut Run) {
     let (n, f) = sized_space(255);
     sweep_enc(run, "C03", "writers x every data length x walking contents", n, &f, &Addrs::List(vec![(0x23, 0x34), (0x7F, 0x01)]), 2);
     c03_responses(run);
+    lib_responses_t1(run, "C03");
     // self-referential content: a message byte equal to the running CRC-8 of everything before it
     // (the remainder becomes zero there), followed by zeros or by 0xFF
     {
@@ -1080,22 +1081,127 @@ pub fn run_c03(run: &mut Run) {
 /// C03 also covers the packets the library encodes on its own: the responses
 /// `process_packet` generates.
 fn judge_c03_response(spec: &CtxSpec, pkt: &[u8]) -> (Option<String>, String, bool) {
+    judge_lib_response("C03", spec, pkt)
+}
+
+/// A response the library encodes on its own (`process_packet`), judged by the
+/// encoder property's own aspect: C03 the PEC; C04 command byte, byte count ==
+/// reported length - 4 == measured extent - 4, own address with the read bit in
+/// byte 3, write bit clear in byte 0, and the length probe on every prefix;
+/// C05 version/reserved, source EID == own address, SOM = EOM = 1 and sequence
+/// 0, IC clear and type 0x00.  (Which *destination* a response should carry is
+/// C12's statement, not theirs.)
+fn judge_lib_response(prop: &str, spec: &CtxSpec, pkt: &[u8]) -> (Option<String>, String, bool) {
     let owned = Owned::new(&spec.cfg);
     let mut ctx = build(&owned, &spec.history);
     let obs = subject::apply(&mut ctx, &Event::Process(pkt.to_vec()));
-    let crate::subject::StepOut::Proc { out, resp, .. } = &obs.out else { return (Some("harness: not a process step".into()), String::new(), false) };
+    let crate::subject::StepOut::Proc { out, resp, extent } = &obs.out else { return (Some("harness: not a process step".into()), String::new(), false) };
     let observed = format!("{:?} {}", out, hex(resp));
-    match out.resp_len {
-        Some(n) if n >= 1 && n <= resp.len() => {
-            let want = crc8(&resp[..n - 1]);
-            if resp[n - 1] != want {
-                (Some(format!("the response to {} is {}: last byte {:#04x} is not the CRC-8 {:#04x} of the preceding {} bytes", hex(pkt), hex(&resp[..n]), resp[n - 1], want, n - 1)), observed, true)
-            } else {
-                (None, observed, true)
+    let Some(n) = out.resp_len else { return (None, observed, false) };
+    if n < 1 || n > resp.len() {
+        return (None, observed, false);
+    }
+    let own = spec.cfg.addr;
+    let r = &resp[..n];
+    let mut bad: Vec<String> = vec![];
+    match prop {
+        "C03" => {
+            let want = crc8(&r[..n - 1]);
+            if r[n - 1] != want {
+                bad.push(format!("last byte {:#04x} is not the CRC-8 {:#04x} of the preceding {} bytes", r[n - 1], want, n - 1));
             }
         }
-        _ => (None, observed, false),
+        "C04" if n >= 4 => {
+            if r[0] & 1 != 0 {
+                bad.push(format!("byte 0 is {:#04x}: the write bit is not clear", r[0]));
+            }
+            if r[1] != 0x0F {
+                bad.push(format!("command code byte is {:#04x}", r[1]));
+            }
+            if r[2] as usize + 4 != n {
+                bad.push(format!("byte count {} + 4 != reported length {}", r[2], n));
+            }
+            // (the extent is measured against one poison pattern: a written byte that happens to
+            // equal its poison looks unwritten, so only a shortfall not explained that way counts)
+            if *extent > n || (*extent..n).any(|j| r[j] != subject::poison(j, 0)) {
+                bad.push(format!("bytes were written up to offset {} but the reported length is {}", extent, n));
+            }
+            if r[3] != ((own & 0x7F) << 1) | 1 {
+                bad.push(format!("byte 3 is {:#04x}, expected the responder's address {:#04x} with bit 0 set", r[3], ((own & 0x7F) << 1) | 1));
+            }
+            for k in 3..=n {
+                let got = subject::get_length(&ctx, &r[..k]);
+                if got != LenOut::Ok(n) {
+                    bad.push(format!("get_length on the first {} bytes = {:?}, reported length {}", k, got, n));
+                    break;
+                }
+            }
+        }
+        "C05" if n >= 10 => {
+            if r[4] != 0x01 {
+                bad.push(format!("byte 4 (reserved/version) is {:#04x}", r[4]));
+            }
+            if r[6] != own {
+                bad.push(format!("byte 6 (source EID) is {:#04x}, the responder's address is {:#04x}", r[6], own));
+            }
+            if r[7] & 0xF0 != 0xC0 {
+                bad.push(format!("byte 7 is {:#04x}: SOM/EOM/sequence are not 1/1/0", r[7]));
+            }
+            if r[8] != 0x00 {
+                bad.push(format!("byte 8 (IC/message type) is {:#04x}", r[8]));
+            }
+        }
+        _ => {}
     }
+    if bad.is_empty() {
+        (None, observed, true)
+    } else {
+        (Some(format!("the response to {} is {}: {}", hex(pkt), hex(r), bad.join("; "))), observed, true)
+    }
+}
+
+/// Responses to requests whose *own* framing is unusual: each of the nine SMBus /
+/// transport / type bytes of each answerable request takes all 256 values (PEC
+/// re-computed), on three responder states.  What the requester put in its
+/// headers must not damage the framing of the answer.
+pub fn lib_responses_t1(run: &mut Run, prop: &'static str) {
+    let kinds: Vec<(u8, Vec<u8>)> = vec![(0x01, vec![0, 0x5A]), (0x01, vec![1, 0xFE]), (0x01, vec![3, 0x01]), (0x02, vec![]), (0x03, vec![]), (0x04, vec![0xFF]), (0x05, vec![]), (0x06, vec![0])];
+    let nk = kinds.len() as u64;
+    run.sweep("responses generated by process_packet to requests with one header byte (0..=8) deviating: 8 kinds x 9 positions x 256 values x 2 instance ids x 3 responder states", nk * 9 * 256 * 2 * 3, |acc, i| {
+        let mut ix = Ix(i);
+        let st = ix.take(3);
+        let iid = if ix.take(2) == 1 { 9u8 } else { 0 };
+        let val = ix.take(256) as u8;
+        let pos = ix.take(9) as usize;
+        let (cmd, data) = &kinds[ix.take(nk) as usize];
+        let (requester, responder) = (0x10u8, 0x23u8);
+        let mut pkt = forge_request(requester, responder, iid, false, *cmd, data);
+        pkt[pos] = val;
+        fix_pec(&mut pkt);
+        let cfg = Cfg { addr: responder, msg_types: vec![0x7E, 0x05], vendors: vec![(0, 0x1414, 4), (1, 0xDEADBEEF, 9)] };
+        let history = match st {
+            0 => vec![],
+            1 => vec![Event::Process(set_eid_req(0x10, responder, 0, 0x99))],
+            _ => vec![Event::SetUuid(U1), Event::SetEidResp(0x3C)],
+        };
+        let spec = CtxSpec { cfg, history };
+        acc.evals += 1;
+        let (v, observed, answered) = judge_lib_response(prop, &spec, &pkt);
+        acc.trans += 1;
+        acc.validated += 1;
+        let f = Fnv::default().bytes(&pkt).u64(st).finish();
+        acc.state(f);
+        if answered {
+            acc.nontrivial(f);
+        }
+        acc.outcome2("process_packet response (deviating request header)", if answered { "ok" } else { "no-packet" });
+        if i % 20_011 == 3 {
+            acc.sample(|| json!({"request": hex(&pkt), "observed": observed}));
+        }
+        if let Some(d) = v {
+            acc.violation(1, "response", d, || json!({"prop": prop, "check": "response", "spec": spec, "request": hex(&pkt)}));
+        }
+    });
 }
 
 fn c03_responses(run: &mut Run) {
@@ -1167,6 +1273,7 @@ pub fn run_c04(run: &mut Run) {
     sweep_encseq(run, "C04");
     enc_pairs(run, "C04");
     sweep_encdeep(run, "C04");
+    lib_responses_t1(run, "C04");
     sweep_enc_thrash(run, "C04");
     sweep_enc_after_ctrl_header(run, "C04");
     sweep_enc_long_runs(run, "C04");
@@ -1188,6 +1295,7 @@ pub fn run_c05(run: &mut Run) {
     sweep_encseq(run, "C05");
     enc_pairs(run, "C05");
     sweep_encdeep(run, "C05");
+    lib_responses_t1(run, "C05");
     sweep_enc_thrash(run, "C05");
     sweep_enc_after_ctrl_header(run, "C05");
     sweep_enc_long_runs(run, "C05");
@@ -1403,19 +1511,27 @@ pub fn enc_pairs(run: &mut Run, prop: &'static str) {
     }
 }
 
-pub fn replay_c03(c: &Value) -> Result<ReplayOut, String> {
-    if c["check"].as_str() == Some("response") {
+fn replay_response(prop: &str, c: &Value) -> Option<Result<ReplayOut, String>> {
+    if c["check"].as_str() != Some("response") {
+        return None;
+    }
+    Some((|| {
         let spec: CtxSpec = get_de(c, "spec")?;
         let pkt = get_hex(c, "request")?;
-        let (v, observed, _) = judge_c03_response(&spec, &pkt);
-        return Ok(ReplayOut { violations: v.into_iter().collect(), observed });
-    }
-    replay_enc("C03", c)
+        let (v, observed, _) = judge_lib_response(prop, &spec, &pkt);
+        Ok(ReplayOut { violations: v.into_iter().collect(), observed })
+    })())
+}
+pub fn replay_c03(c: &Value) -> Result<ReplayOut, String> {
+    replay_response("C03", c).unwrap_or_else(|| replay_enc("C03", c))
 }
 pub fn replay_c04(c: &Value) -> Result<ReplayOut, String> {
-    replay_enc("C04", c)
+    replay_response("C04", c).unwrap_or_else(|| replay_enc("C04", c))
 }
 pub fn replay_c05(c: &Value) -> Result<ReplayOut, String> {
+    if let Some(r) = replay_response("C05", c) {
+        return r;
+    }
     replay_enc("C05", c)
 }
 pub fn replay_c06(c: &Value) -> Result<ReplayOut, String> {
